@@ -21,6 +21,8 @@ def enc(m):
 
 def corpus():
     return [
+        "run prop=C16 mode=file dur=3000 conc=2 file=u:200:2;c:300:2/100ms body=150",      # C16k: iterations of the stage after a users stage are in the result, too
+        "run prop=C16 mode=file dur=3000 conc=3 file=u:150:3;c:400:3/100ms body=200",
         "run prop=C16 mode=constant rate=3000000/100ms dist=none dur=250 conc=1 body=400 timeout=5000",   # C16l / D22: millions of drops, result and metric agree
         enc([("zone", "primary"), ("zone2", "secondary"), ("team", "x")]),
         enc([("env1", "a"), ("env", "b")]),
